@@ -36,7 +36,7 @@ ASSUMPTIONS = [
 SHARDS = {"quick": 16, "thorough": 16}
 TIMEOUT = {"quick": 900, "thorough": 7200}
 MIN_CASES = {"quick": 1500, "thorough": 30000}
-REQUIRED_COUNTERS = ["quiescent_checks", "failed_setups_closed", "closes_returned_normally", "close_sweep_points", "peer_close_probes", "auth_failure_then_close", "late_loss_probes"]
+REQUIRED_COUNTERS = ["quiescent_checks", "failed_setups_closed", "closes_returned_normally", "close_sweep_points", "peer_close_probes", "auth_failure_then_close", "late_loss_probes", "reuse_after_close_histories"]
 
 FAILS = [
     "refuse", "blackhole", "bad_sig", "bad_tag", "wrong_id", "missing_field", "wrong_state", "bad_key_len",
@@ -267,6 +267,41 @@ class Run:
         await asyncio.sleep(120)
         await vloop.settle()
         self.after_close_checks(before, "120 virtual seconds after close")
+        if not self.bad and self.ending.startswith("close") and self.after == "ok":
+            await self.reuse_after_close()
+
+    async def reuse_after_close(self) -> None:
+        """close() is not shutdown(): the pairing may be used again. Every use (zeroconf sighting, ensure_connection, an API
+        call) must end with at most ONE open connection on the accessory side, and a final close leaves none."""
+        from vf import vloop
+
+        w = self.w
+        for n in range(3):
+            if n == 1:
+                w.connection.reconnect_soon()
+            else:
+                t = asyncio.ensure_future(w.connection.ensure_connection())
+                t.add_done_callback(lambda f: f.cancelled() or f.exception())
+            for _ in range(4):
+                await self.tick("re-used after close")
+                if self.bad:
+                    return
+            try:
+                await asyncio.wait_for(w.connection.get_json("/accessories"), 45)
+            except Exception:  # noqa: BLE001 - availability is C10's subject; here only the connection count is judged
+                self.ctx.count("reuse_probe_failed")  # (the remaining failing outcomes of a plan cut short by an authentication error)
+            await self.tick("re-used after close")
+            if self.bad:
+                return
+        self.ctx.count("reuse_after_close_histories")
+        before = len(w.accessory.conns)
+        try:
+            await asyncio.wait_for(w.pairing.close(), 60)
+        except Exception as ex:  # noqa: BLE001
+            self.violation("close-raises", f"second close after re-use raised {type(ex).__name__}: {ex}")
+            return
+        await vloop.settle()
+        self.after_close_checks(before, "after re-use and second close")
 
     def after_close_checks(self, conns_before: int, where: str) -> None:
         acc = self.w.accessory
@@ -349,13 +384,23 @@ async def run_late_loss(ctx, variant: int) -> None:
         # external trigger: the accessory is seen again by zeroconf
         w.pairing._async_description_update(w.description(w.hosts))
         # (pair-verify on the new connection queues behind the stuck request until that request's own 30 s timer fires)
+        def second():
+            # ground truth on the accessory side (the library's own is_connected flag is part of what is being judged)
+            return [c for c in w.accessory.conns if c is not conn1 and c.secure and c.is_open]
+
         for _ in range(90):
             await asyncio.sleep(0.5)
             await vloop.settle()
-            if w.connection.is_connected:
+            if second():
                 break
-        if not w.connection.is_connected:
+        if not second():
             ctx.count("late_loss_no_second_connection")
+            return
+        if len(second()) > 1:
+            ctx.violation("more-than-one-open-connection-after-reopen", f"variant {variant}: {len(second())} new connections open besides the abandoned one", replay)
+            return
+        if not w.connection.is_connected:
+            ctx.violation("open-connection-not-reported-connected", f"variant {variant}: the accessory sees an established connection but is_connected is false (every further call would open another one)", replay)
             return
         conn2 = w.accessory.conns[-1]
         r = await asyncio.wait_for(w.connection.get_json("/accessories"), 45)
